@@ -59,6 +59,12 @@ func (c *concurrencyOperator) Next(ctx context.Context) ([]model.StepVector, err
 
 	r, ok := <-c.buffer
 	if !ok {
+		// After a cancellation the drain goroutine competes for the buffer and
+		// may have consumed the context error pushed by pull, in which case a
+		// closed buffer does not mean that the stream is complete.
+		if err := ctx.Err(); err != nil {
+			return nil, err
+		}
 		return nil, nil
 	}
 	if r.err != nil {
